@@ -1,3 +1,89 @@
 package smtp
 
+import "io"
+
 func verif_C04_line() { verifLineHarness("C04") }
+
+// verif_C04_stale: a chunked transfer is abandoned (RSET, a new MAIL, a new
+// EHLO) and a second message is sent with BDAT LAST on the same connection.
+// The delivery goroutine of the abandoned transfer finishes at a point chosen
+// by the scheduler. The final reply of the second message must be that
+// message's own verdict.
+func verif_C04_stale() {
+	verifPreemptBound(verifBound(1, 2))
+	how := verifChoice(3)
+	second := nondetBool() // verdict of the second message
+	ncall := 0
+	var got2 []byte
+	// harness-controlled event order: with gated set, the aborted delivery
+	// does not return before the second delivery has started (a slow backend)
+	gated := nondetBool()
+	gate := make(chan struct{})
+	be := &vbackend{}
+	be.dataFn = func(_ *vsession, r io.Reader) error {
+		ncall++
+		me := ncall
+		if me == 2 && gated {
+			close(gate)
+			verifSettle()
+		}
+		b, rerr := verifReadAll(r, 4)
+		if me == 1 {
+			if gated && how != 2 {
+				<-gate
+			}
+			if rerr == io.EOF {
+				return nil
+			}
+			return rerr
+		}
+		got2 = b
+		if rerr != io.EOF {
+			return rerr
+		}
+		if second {
+			return nil
+		}
+		return &SMTPError{Code: 550, EnhancedCode: EnhancedCode{5, 6, 0}, Message: "second rejected"}
+	}
+	s, _ := verifServer(be)
+	in := "EHLO c\r\nMAIL FROM:<one@v>\r\nRCPT TO:<r@v>\r\nBDAT 2\r\nab"
+	n := 5
+	switch how {
+	case 0:
+		in += "RSET\r\n"
+		n++
+	case 1:
+		in += "EHLO again\r\n"
+		n++
+	case 2:
+		in += "QUIT\r\n"
+	}
+	if how != 2 {
+		in += "MAIL FROM:<two@v>\r\nRCPT TO:<r@v>\r\nBDAT 3 LAST\r\nxyz"
+	}
+	vc, _, _ := verifServe(s, []byte(in), io.EOF)
+	reps, wf := verifParseReplies(vc.out)
+	verifAssert(wf, "C04.stale-replies-wellformed")
+	if !wf {
+		return
+	}
+	verifObserve("c04s", how, second, len(reps), ncall)
+	if how == 2 {
+		verifReach("C04.stale-quit")
+		verifAssert(len(reps) == n+1 && reps[n].code == 221, "C04.quit-after-chunk")
+	} else {
+		verifReach("C04.stale-second-message")
+		verifAssert(len(reps) == n+3, "C04.stale-one-reply-per-command")
+		if len(reps) == n+3 {
+			final := reps[n+2]
+			if second {
+				verifAssert(final.code == 250, "C04.final-reply-positive-iff-this-message-accepted")
+			} else {
+				verifAssert(final.code == 550 && final.lines[0] == "5.6.0 second rejected", "C04.negative-reply-carries-own-error")
+			}
+			verifAssert(string(got2) == "xyz", "C04.second-message-octets")
+		}
+	}
+	verifAssert(verifGoroutinesAlive() == 0, "C04.stale-no-goroutine-left")
+}
